@@ -589,3 +589,63 @@ func enumC(t tree, emit func(cSpec)) {
 		}
 	}
 }
+
+// ---------- T family: a sibling subchart ships its own `tags` table ----------
+
+// tSpec: P depends on A (with dependency Y) and B (with dependency X). A's
+// values.yaml holds a `tags` table and, optionally, a section named after its
+// sibling (`B: {X: {enabled: ...}}`): both are A's own plain data. X below B
+// carries tags; only the tags the top parent / the user set may decide.
+type tSpec struct {
+	BFirst bool // B is listed before A in P's Chart.yaml
+	XTags  int  // 1 {t1}, 2 {t1,t2}
+	SibT1  tv   // tags.t1 in A's values.yaml
+	SibT2  tv   // tags.t2 in A's values.yaml
+	RootT1 pair // tags.t1 in P's values.yaml / user values
+	XCond  bool // X has condition X.enabled
+	SibSec tv   // B.X.enabled inside A's values.yaml
+	UserEn tv   // user value B.X.enabled
+}
+
+func buildT(s tSpec) *Case {
+	a := &ChartDef{Name: "A", Deps: []DepDef{{Name: "Y"}}, Subs: []*ChartDef{leaf("Y")}}
+	x := DepDef{Name: "X", Tags: []string{"t1", "t2"}[:s.XTags]}
+	if s.XCond {
+		x.Condition = "X.enabled"
+	}
+	b := &ChartDef{Name: "B", Deps: []DepDef{x}, Subs: []*ChartDef{leaf("X")}}
+	p := &ChartDef{Name: "P", Deps: []DepDef{{Name: "A"}, {Name: "B"}}, Subs: []*ChartDef{a, b}}
+	if s.BFirst {
+		p.Deps = []DepDef{{Name: "B"}, {Name: "A"}}
+		p.Subs = []*ChartDef{b, a}
+	}
+	cs := &Case{Root: p, User: map[string]any{}}
+	richDefaults(p)
+	setSwitch(a.Defaults, []string{"tags", "t1"}, s.SibT1)
+	setSwitch(a.Defaults, []string{"tags", "t2"}, s.SibT2)
+	setSwitch(a.Defaults, []string{"B", "X", "enabled"}, s.SibSec)
+	setSwitch(p.Defaults, []string{"tags", "t1"}, s.RootT1.def)
+	setSwitch(cs.User, []string{"tags", "t1"}, s.RootT1.user)
+	setSwitch(cs.User, []string{"B", "X", "enabled"}, s.UserEn)
+	return cs
+}
+
+func enumT(emit func(tSpec)) {
+	three := []tv{absent, vTrue, vFalse}
+	for _, bFirst := range []bool{false, true} {
+		for xt := 1; xt <= 2; xt++ {
+			for s1 := absent; s1 <= vStr; s1++ {
+				for _, s2 := range three {
+					for _, rt := range red6Pairs {
+						emit(tSpec{BFirst: bFirst, XTags: xt, SibT1: s1, SibT2: s2, RootT1: rt})
+						for _, sec := range three {
+							for _, ue := range three {
+								emit(tSpec{BFirst: bFirst, XTags: xt, SibT1: s1, SibT2: s2, RootT1: rt, XCond: true, SibSec: sec, UserEn: ue})
+							}
+						}
+					}
+				}
+			}
+		}
+	}
+}
